@@ -7,10 +7,10 @@ from ..pm import U
 from . import common as C
 
 TECHNIQUE = (
-    "static analysis: constant folding of the two pure decoder functions over the finite table of the README's documented operand codes; literal snapping constants and window symmetry; key agreement of the TP/LT merge; index-bound (interval) check of block indexing with guard recognition; emission path (every entry inserted, dump covers the list inserted into)"
+    "static analysis: constant folding of the two pure decoder functions over the finite table of the README's documented operand codes; literal snapping constants and window symmetry; key agreement of the TP/LT merge; index-bound (interval) check of block indexing with guard recognition; emission path (every entry inserted, dump covers the list inserted into); aliasing-depth ownership analysis of the import functions (memoised returns are shared storage)"
 )
 EXPLANATION = (
-    "R1: both _create_db_operand_* decoders are constant-folded (osaca_sa/consteval.py, an interpreter over the AST for the pure subset they use; nothing of the repository is executed) over the finite table of documented operand codes - every memory-flag subset in both orders included - and a few undocumented letters; the operand each code yields must equal the README's 'Benchmark import' bullet lists (x86: r, x/y/z, i, m[b o i s]; AArch64: w x b h s d q, v[bhsd] default d, i, m[b o i s r p]). R2: throughput candidates are 1/n for n in range(1, 11); the acceptance window is the symmetric pair 0.95/1.05 in both modes; an accepted latency is rounded to the nearest integer, an accepted throughput is the matching reciprocal; out of window returns None. R3: TP and LT lines of one ibench form map to the same key and update the same entry object. R4: every index i + k into the asmbench lines stays below the bound the loop guarantees or is guarded; the malformed-block path breaks (earlier entries kept). R5: every parsed entry is passed to set_instruction_entry and the dump covers the list entries were appended to."
+    "R1: both _create_db_operand_* decoders are constant-folded (osaca_sa/consteval.py, an interpreter over the AST for the pure subset they use; nothing of the repository is executed) over the finite table of documented operand codes - every memory-flag subset in both orders included - and a few undocumented letters; the operand each code yields must equal the README's 'Benchmark import' bullet lists (x86: r, x/y/z, i, m[b o i s]; AArch64: w x b h s d q, v[bhsd] default d, i, m[b o i s r p]). R2: throughput candidates are 1/n for n in range(1, 11); the acceptance window is the symmetric pair 0.95/1.05 in both modes; an accepted latency is rounded to the nearest integer, an accepted throughput is the matching reciprocal; out of window returns None. R3: TP and LT lines of one ibench form map to the same key and update the same entry object. R4: every index i + k into the asmbench lines stays below the bound the loop guarantees or is guarded; the malformed-block path breaks (earlier entries kept). R5: every parsed entry is passed to set_instruction_entry and the dump covers the list entries were appended to. R6: in the functions of db_interface reachable from import_benchmark_output no object with aliasing depth 0 to a memoised return value, module global, class attribute or default argument is mutated in place (E4/E5 ownership analysis): a decoder result shared between forms cannot be edited per form."
 )
 NOT_DECIDED = "Numeric behaviour exactly at the window boundaries and the YAML round trip of the emitted model."
 ASSUMPTIONS = ["README.rst section 'Benchmark import' is the documented naming convention"]
@@ -88,14 +88,20 @@ def _r1(ctx):
     )
     n_codes = 0
     mod_funcs = {fn.name: fn.node for qn, fn in ctx.repo.funcs.items() if qn.startswith("db_interface.")}
+    dbi = [m for m in ctx.repo.modules.values() if m.rel == "osaca/db_interface.py"]
+    mod_globals = dict(dbi[0].globals) if dbi else {}
+    n_folded = 0
     for isa, q, codes, want, unknown in tables:
         g = ctx.func(q)
-        for c in codes:
+        try:
+            folded = [(c, consteval.call(g.node, c, functions=mod_funcs, globals=mod_globals)) for c in codes]
+            rejected = [(c, consteval.call(g.node, c, functions=mod_funcs, globals=mod_globals)) for c in unknown]
+        except consteval.Unsupported as x:
+            ctx.unknown("R1", "%s decoder" % isa, g.where(), "%s uses a construct the constant folder does not model (%s)" % (q, x))
+            continue
+        n_folded += 1
+        for c, got in folded:
             n_codes += 1
-            try:
-                got = consteval.call(g.node, c, functions=mod_funcs)
-            except consteval.Unsupported as x:
-                ctx.broken("R1: %s uses a construct the constant folder does not model (%s)" % (q, x))
             exp = want(c)
             ok = got[0] == "return" and isinstance(got[1], dict) and got[1] == exp and all(
                 type(got[1][k]) is type(exp[k]) for k in exp)
@@ -103,15 +109,12 @@ def _r1(ctx):
                       "the %s decoder turns the documented operand code '%s' into %s; the naming convention (README, 'Benchmark "
                       "import') says %s" % (isa, c, got[1] if got[0] == "return" else "an exception (%s)" % got[1], exp), g.qname,
                       "%s code %s" % (isa, c))
-        for c in unknown:
-            try:
-                got = consteval.call(g.node, c, functions=mod_funcs)
-            except consteval.Unsupported as x:
-                ctx.broken("R1: %s uses a construct the constant folder does not model (%s)" % (q, x))
+        for c, got in rejected:
             ctx.check(got[0] == "raise", "R1", "%s: undocumented code '%s' is rejected" % (isa, c), g.where(),
                       "the %s decoder accepts the undocumented operand code '%s' as %s instead of rejecting it" % (isa, c, got[1]),
                       g.qname, "%s reject %s" % (isa, c))
-    ctx.floor("R1", "documented operand codes folded through the decoders", n_codes, 100)
+    if n_folded == 2:
+        ctx.floor("R1", "documented operand codes folded through the decoders", n_codes, 100)
     ctx.note("R1: codes outside the documented vocabulary that the decoders also accept (e.g. '' or 'wx' through the substring test "
              "`operand in 'wxbhsdq'`, any x86 code starting with 'r') are not part of the property")
     # dispatch
@@ -375,6 +378,34 @@ def _r5(ctx):
               "dump all")
 
 
+def _r6(ctx):
+    ctx.rule("R6", "decoders and parsers of the import hand out fresh values: no memoised / global / default object is mutated")
+    from .c18 import effects_of
+    eff = effects_of(ctx)
+    root = "db_interface.import_benchmark_output"
+    if root not in eff.summ:
+        ctx.broken("R6: %s not found" % root)
+    reach = eff.reachable_from([root])
+    own = [f for f in eff.funcs if f.qname in reach and f.module.rel == "osaca/db_interface.py"]
+    ctx.floor("R6", "import functions examined", len(own), 5)
+    n = 0
+    for f in own:
+        ctx.touch(f)
+        for node, lab, what in eff.summ[f.qname].sinks:
+            kind = lab.origin.split(" ")[0]
+            if kind == "MODEL":
+                continue        # writing the model that is being built is the purpose of the import
+            n += 1
+            ctx.bad("R6", "%s in %s" % (what, f.qname), f.where(node),
+                    "the import mutates process-shared storage in place: %s; the object is %s. A decoded operand (or "
+                    "parsed entry) that is memoised / global is the SAME object for every later form with the same code, so "
+                    "what one form's decoding writes into it shows up in the operands of other forms (and differs between "
+                    "the first and later imports of one process)" % (what, lab.origin), f.qname, U(node), f.module.excerpt(node))
+        if not eff.summ[f.qname].sinks:
+            ctx.ok("R6", "%s mutates no shared object" % f.qname, f.where())
+    ctx.extra["import_functions"] = sorted(f.qname for f in own)
+
+
 def run(ctx):
     C.require_locals(ctx, ctx.func('db_interface._get_asmbench_output'), ['db_entries', 'entry'])
     C.require_locals(ctx, ctx.func('db_interface._get_ibench_output'), ['db_entries', 'entry', 'instruction', 'line'])
@@ -384,3 +415,4 @@ def run(ctx):
     _r3(ctx)
     _r4(ctx)
     _r5(ctx)
+    _r6(ctx)
